@@ -11,6 +11,7 @@ import (
 	"errors"
 	"fmt"
 	"math/rand"
+	"net"
 	"net/http"
 	"net/http/httptest"
 	"os"
@@ -19,6 +20,7 @@ import (
 	"strings"
 	"sync"
 	"sync/atomic"
+	"syscall"
 	"testing"
 	"time"
 	"unicode/utf8"
@@ -46,6 +48,7 @@ type sys struct {
 	reqs  atomic.Int64
 	puts  atomic.Int64
 	audit *os.File
+	slowLink bool // every other reply is delivered in pieces (TestConcurrentGets)
 }
 
 func whois(ctx context.Context, addr string) (*apitype.WhoIsResponse, error) {
@@ -77,8 +80,31 @@ func (s *sys) start(t testing.TB) {
 		if strings.HasSuffix(r.URL.Path, "/put") {
 			s.puts.Add(1)
 		}
+		if s.slowLink && s.reqs.Load()%2 == 0 {
+			w = &slowWriter{ResponseWriter: w}
+		}
 		mux.ServeHTTP(w, r)
 	}))
+}
+
+// slowWriter delivers a reply the way a slow connection does: in pieces, with other requests being served in between.
+type slowWriter struct{ http.ResponseWriter }
+
+func (w *slowWriter) Write(p []byte) (int, error) {
+	n := 0
+	for len(p) > 0 {
+		k := min(len(p), 64<<10)
+		m, err := w.ResponseWriter.Write(p[:k])
+		n += m
+		if err != nil {
+			return n, err
+		}
+		p = p[k:]
+		if len(p) > 0 {
+			time.Sleep(2 * time.Millisecond)
+		}
+	}
+	return n, nil
 }
 
 func (s *sys) stop() {
@@ -422,7 +448,7 @@ func cacheValue(path, name string) ([]byte, bool) {
 func TestConcurrentGets(t *testing.T) {
 	dir := vh.Dir(t)
 	res := vh.NewResult(t, "e2e-concurrent")
-	s := &sys{dir: filepath.Join(dir, "srvc")}
+	s := &sys{dir: filepath.Join(dir, "srvc"), slowLink: true}
 	os.MkdirAll(s.dir, 0o700)
 	s.start(t)
 	defer s.stop()
@@ -446,6 +472,11 @@ func TestConcurrentGets(t *testing.T) {
 		go func(g int) {
 			defer wg.Done()
 			c := setec.Client{Server: s.srv.URL}
+			if g%2 == 0 {
+				// a reader on a slow link: small receive buffer, and it takes its time before it reads the body -- the handler
+				// is still writing this reply while the next requests are being served
+				c.DoHTTP = slowClient().Do
+			}
 			for k := 0; k < rounds; k++ {
 				i := (g + k) % n
 				sv, err := c.Get(ctx, fmt.Sprintf("conc/blob-%d", i))
@@ -470,6 +501,37 @@ func TestConcurrentGets(t *testing.T) {
 	wg.Wait()
 	res.Set("reads", int(reads.Load()))
 	res.Write(t)
+}
+
+type slowBody struct {
+	rc   interface {
+		Read([]byte) (int, error)
+		Close() error
+	}
+	once sync.Once
+}
+
+func (b *slowBody) Read(p []byte) (int, error) {
+	b.once.Do(func() { time.Sleep(15 * time.Millisecond) })
+	return b.rc.Read(p)
+}
+func (b *slowBody) Close() error { return b.rc.Close() }
+
+type slowTransport struct{ tr *http.Transport }
+
+func (t slowTransport) RoundTrip(req *http.Request) (*http.Response, error) {
+	resp, err := t.tr.RoundTrip(req)
+	if err == nil {
+		resp.Body = &slowBody{rc: resp.Body}
+	}
+	return resp, err
+}
+
+func slowClient() *http.Client {
+	d := &net.Dialer{Control: func(network, address string, c syscall.RawConn) error {
+		return c.Control(func(fd uintptr) { syscall.SetsockoptInt(int(fd), syscall.SOL_SOCKET, syscall.SO_RCVBUF, 4096) })
+	}}
+	return &http.Client{Transport: slowTransport{&http.Transport{DialContext: d.DialContext, DisableKeepAlives: true}}}
 }
 
 // ---- the CLI ----
